@@ -142,6 +142,8 @@ class ClientWorld(object):
                 ev.append(("accept:%d" % a.aid, Z))
                 if menu.get("refuse"):
                     ev.append(("refuse:%d" % a.aid, F))
+                if menu.get("hang"):
+                    ev.append(("hang:%d" % a.aid, F))  # the connection never establishes (SYN black-holed)
             else:
                 ev.append(("refuse:%d" % a.aid, Z))
         for c in self.net.open_conns():
@@ -234,15 +236,16 @@ class ClientWorld(object):
     SPIN = 4
 
     def _attempts_now(self):
+        """Largest number of connection attempts made to one address at the current virtual instant."""
         now = self.clock.seconds()
-        n = 0
+        per = {}
         for j in reversed(self.net.journal):
             if j[0] == "attempt":
                 if j[4] == now:
-                    n += 1
+                    per[(j[2], j[3])] = per.get((j[2], j[3]), 0) + 1
                 else:
                     break
-        return n
+        return max(per.values()) if per else 0
 
     def app_early_ok(self, op):
         return True
@@ -258,6 +261,20 @@ class ClientWorld(object):
                 self._accept(a)
             elif kind == "refuse":
                 self.net.refuse(self.net.attempts[int(parts[1])])
+            elif kind == "hang":
+                # the SYN is black-holed; the endpoint's own connect timeout (30 s for HostnameEndpoint, which
+                # afkak relies on: "Afkak does not apply a timeout to connection attempts") ends the attempt
+                a = self.net.attempts[int(parts[1])]
+                a.state = "hung"
+                self.net.journal.append(("hang", a.aid))
+
+                def endpoint_timeout(a=a):
+                    if a.state == "hung":
+                        from twisted.internet import error
+                        a.state = "refused"
+                        a.d.errback(error.TimeoutError("endpoint connect timeout"))
+                endpoint_timeout.__qualname__ = "VNet.endpoint_connect_timeout"
+                self.clock.callLater(30.0, endpoint_timeout)
             elif kind == "closed":
                 from twisted.internet import error
                 self.conn(int(parts[1])).close(error.ConnectionDone("closed cleanly"))
